@@ -354,6 +354,10 @@ class InterpCore(object):
             return ep.app(("lookupval", v.key()), [])
         if isinstance(v, Unknown):
             return ep.app(("unknown", v.tag), [])
+        if isinstance(v, (FuncV, ClassV, ListV, DictV)) or (isinstance(v, Const) and (v.v is None or isinstance(v.v, str))):
+            # arithmetic / numeric conversion of something that is plainly not a number
+            from .symeval_ops import ExcV
+            raise RaiseSignal(ExcV(ExtV("builtins.TypeError"), [Const("a number is required, not %s" % type(v).__name__)]), node)
         self.err(node, "numeric value expected, got %r" % (v,))
 
     def e_BinOp(self, node, env):
